@@ -199,6 +199,31 @@ theorem black_hole_falls_to_min_of_limits (s : State) (hc : s.currentMtu ≤ s.p
   simp only [Nat.min_def] at hf ⊢
   split at hf <;> split <;> (try split) <;> omega
 
+/-- "when the path starts dropping large packets the connection falls back": an acknowledgement of a packet of
+    `len` bytes clears the suspicion of exactly those loss bursts whose smallest lost packet was no larger than
+    `len` — every burst of LARGER packets stays suspicious (so traffic of intermediate size that still gets through
+    cannot keep the detector from reaching its threshold), and nothing else is kept.  The comparison is the one
+    regenerated from `BlackHoleDetector::on_non_probe_acked` (`Gen.mtudBurstStays`).  No assumptions. -/
+theorem larger_bursts_stay_suspicious (d : Detector) (pn len b : Nat) (hb : b ∈ d.bursts) (hl : len < b) :
+    b ∈ (d.onNonProbeAcked pn len).bursts := by
+  unfold Detector.onNonProbeAcked
+  split
+  · exact hb
+  · exact List.mem_filter.mpr ⟨hb, by simp [Gen.mtudBurstStays, hl]⟩
+
+theorem only_larger_bursts_stay_suspicious (d : Detector) (pn len b : Nat)
+    (hn : Gen.mtudAckedNoop len d.ackedMtu = false) (hb : b ∈ (d.onNonProbeAcked pn len).bursts) :
+    b ∈ d.bursts ∧ len < b := by
+  unfold Detector.onNonProbeAcked at hb
+  simp only [hn] at hb
+  have h := List.mem_filter.mp hb
+  exact ⟨h.1, by simpa [Gen.mtudBurstStays] using h.2⟩
+
+/-- non-vacuity: bursts of 1452-byte packets survive the acknowledgement of a 1220-byte datagram, a burst of
+    1210-byte packets does not -/
+example : ({ bursts := [1452, 1210, 1452], current := none, largestPostLoss := 0, ackedMtu := 1200, minMtu := 1200 } : Detector).onNonProbeAcked 7 1220
+    = { bursts := [1452, 1452], current := none, largestPostLoss := 7, ackedMtu := 1220, minMtu := 1200 } := by decide
+
 /-- the detector never stores more than `BLACK_HOLE_THRESHOLD + 1` suspicious bursts.  No assumptions. -/
 theorem burst_table_bounded (s0 : State) (h0 : Start s0) (ops : List Op) :
     (exec s0 ops).det.bursts.length ≤ Gen.mtudBlackHoleThreshold + 1 :=
